@@ -3,6 +3,7 @@ package sim
 import (
 	"context"
 	"fmt"
+	"strings"
 
 	"github.com/orbs-network/lean-helix-go/services/interfaces"
 	"github.com/orbs-network/lean-helix-go/spec/types/go/primitives"
@@ -71,7 +72,12 @@ func newMonitors(w *World) *Monitors {
 	return m
 }
 
-func (m *Monitors) on(p string) bool { return m.focus == p || m.focus == "ALL" }
+func (m *Monitors) on(p string) bool {
+	if m.focus == "C18" && (p == "C07" || p == "C08" || p == "C10") {
+		return true // C18's behavioural check: the role (leader) clauses of these oracles, reported as C18
+	}
+	return m.focus == p || m.focus == "ALL"
+}
 
 func (m *Monitors) fail(prop, kind, format string, a ...interface{}) {
 	if m.w.Viol != nil {
@@ -79,6 +85,12 @@ func (m *Monitors) fail(prop, kind, format string, a ...interface{}) {
 	}
 	if !m.on(prop) {
 		return
+	}
+	if m.focus == "C18" && prop != "C18" {
+		if !strings.Contains(kind, "leader") {
+			return // only the leader-role clauses belong to C18
+		}
+		prop, kind = "C18", "wrong-leader-role:"+kind
 	}
 	m.w.Viol = &ev.Violation{Property: prop, Kind: kind, Detail: fmt.Sprintf(format, a...), Replayer: "SIM"}
 }
